@@ -4,8 +4,20 @@ from pyvc.dsl import *  # noqa
 MODULE = "llama_agents.server._store.memory_workflow_store"
 
 FIELD_TYPES = {
+    ("StoredTick", "tick_data"): "opaque:TickData",
     ("PersistentHandler", "status"): "str",
     ("HandlerQuery", "status_in"): "list[str] | None",
+}
+
+LOCK_TYPES = ["Condition"]
+
+OPAQUE_METHODS = {
+    ("Condition", "notify_all"): dict(ret="None", pure=False),
+}
+
+MODULE_FNS = {
+    "datetime.datetime.now": dict(ret="datetime", pure=False),
+    "datetime.now": dict(ret="datetime", pure=False),
 }
 
 INLINE = [
@@ -46,8 +58,9 @@ class MatchesQuery:
 PLAIN_CLASSES = {
     "MemoryWorkflowStore": [
         ("handlers", "dict[str, PersistentHandler]"),
-        ("events", "dict[str, list[opaque:StoredEvent]]"),
-        ("ticks", "dict[str, list[opaque:StoredTick]]"),
+        ("events", "dict[str, list[StoredEvent]]"),
+        ("ticks", "dict[str, list[StoredTick]]"),
+        ("_conditions", "dict[str, opaque:Condition]"),
         ("state_stores", "dict[str, opaque:InMemoryStateStore]"),
         ("max_completed", "int | None"),
         ("_terminal_queue", "list[str]"),  # a deque: append / popleft / remove, modelled as a list
@@ -295,3 +308,88 @@ class StoreDelete:
     def ensures_inv(old, self, query, result):
         # deleted handlers leave no entry behind in the completion queue (a stale entry would count towards the cap)
         return store_inv(self) and within_cap(self) and same(self.max_completed, old.self.max_completed)
+
+
+# ------------------------------------------------------------------ the event log (C16, in-memory store)
+def log_gap_free(evs: "list[StoredEvent]"):
+    """sequence numbers are 0, 1, 2, ... in list (= publication) order"""
+    return forall(len(evs), lambda i: evs[i].sequence == i)
+
+
+def logs_gap_free(s: "MemoryWorkflowStore"):
+    return forall_keys(s.events, lambda r: log_gap_free(s.events[r]))
+
+
+@contract("llama_agents.server._store.memory_workflow_store.MemoryWorkflowStore.append_event")
+class AppendEvent:
+    properties = ["C16"]
+    modifies = ["self"]
+    raises = []
+
+    def requires(self, run_id, event):
+        return logs_gap_free(self)
+
+    def ensures_next_number(old, self, run_id, event, result):
+        # the new record is appended at the end of this run's log with the next consecutive number; earlier records
+        # and the logs of other runs are untouched
+        n = len(old.self.events[run_id]) if run_id in old.self.events else 0
+        return (
+            run_id in self.events
+            and len(self.events[run_id]) == n + 1
+            and self.events[run_id][n].sequence == n
+            and self.events[run_id][n].run_id == run_id
+            and same(self.events[run_id][n].event, event)
+            and forall(n, lambda i: same(self.events[run_id][i], old.self.events[run_id][i]))
+            and forall_keys(old.self.events, lambda r: r in self.events)
+            and forall_keys(self.events, lambda r: r == run_id or (r in old.self.events and same(self.events[r], old.self.events[r])))
+        )
+
+    def ensures_inv(old, self, run_id, event, result):
+        return logs_gap_free(self)
+
+    def ensures_frame(old, self, run_id, event, result):
+        return (
+            same(self.handlers, old.self.handlers)
+            and same(self.ticks, old.self.ticks)
+            and same(self._terminal_queue, old.self._terminal_queue)
+            and same(self.max_completed, old.self.max_completed)
+        )
+
+
+@contract("llama_agents.server._store.memory_workflow_store.MemoryWorkflowStore.query_events")
+class QueryEvents:
+    properties = ["C16"]
+    raises = []
+
+    def requires(self, run_id, after_sequence, limit):
+        return logs_gap_free(self) and (limit is None or opt_val(limit) >= 0)
+
+    def ensures_store_untouched(old, self, run_id, after_sequence, limit, result):
+        return same(self, old.self)
+
+    def ensures_only_records_after_the_cursor(old, self, run_id, after_sequence, limit, result):
+        # every returned record is a record of this run's log numbered above the cursor ...
+        return forall(
+            len(result),
+            lambda i: run_id in self.events
+            and 0 <= result[i].sequence
+            and result[i].sequence < len(self.events[run_id])
+            and same(result[i], self.events[run_id][result[i].sequence])
+            and (after_sequence is None or result[i].sequence > opt_val(after_sequence)),
+        )
+
+    def ensures_in_order_once_each(old, self, run_id, after_sequence, limit, result):
+        # ... in publication order and once each (strictly increasing numbers) ...
+        return forall(len(result), lambda i: forall(i, lambda j: result[j].sequence < result[i].sequence))
+
+    def ensures_nothing_above_the_cursor_is_missing(old, self, run_id, after_sequence, limit, result):
+        # ... and, when no limit is given, every record above the cursor is among them
+        evs = self.events.get(run_id, [])
+        return limit is not None or forall(
+            len(evs),
+            lambda j: (after_sequence is not None and not (evs[j].sequence > opt_val(after_sequence)))
+            or exists(len(result), lambda i: same(result[i], evs[j])),
+        )
+
+    def ensures_limit(old, self, run_id, after_sequence, limit, result):
+        return limit is None or len(result) <= opt_val(limit)
